@@ -52,6 +52,17 @@ class PNode(G.Node):
         _point(self, "vplus")
         return self.value + 1
 
+    # class-level handlers that read cached properties: during a restore (pickle,
+    # clone) they run while the object is half filled, so a cache they create must
+    # be dropped again by the dependency observers, which are installed first
+    def _value_changed(self, new):
+        self.total
+        self.tsum
+        self.gsum
+
+    def _child_changed(self, new):
+        self.deep
+
     def _get_unc(self):
         _point(self, "unc")
         return self.child.value if self.child is not None else -1
